@@ -141,6 +141,8 @@ pub struct WorkerSummary {
 }
 
 pub struct WorkerArgs {
+  /// where to write the summary (the worker's stdout may be polluted by the code under test)
+  pub out: Option<String>,
   pub seed: u64,
   pub tier: String,
   pub from: u64,
@@ -162,7 +164,9 @@ pub fn worker_main(sim: &dyn Simulation, a: WorkerArgs) -> ! {
   }));
   // watchdog: (index, started)
   let current: Arc<Mutex<Option<(u64, Instant)>>> = Arc::new(Mutex::new(None));
+  let out_path = a.out.clone();
   {
+    let out_path = out_path.clone();
     let current = current.clone();
     let summary = summary.clone();
     std::thread::spawn(move || loop {
@@ -173,10 +177,7 @@ pub fn worker_main(sim: &dyn Simulation, a: WorkerArgs) -> ! {
           let mut s = summary.lock().unwrap();
           s.hang_index = Some(idx);
           let out = serde_json::to_string(&*s).unwrap();
-          let stdout = std::io::stdout();
-          let mut l = stdout.lock();
-          let _ = writeln!(l, "{out}");
-          let _ = l.flush();
+          emit_summary(&out_path, &out);
           unsafe { libc::_exit(3) };
         }
       }
@@ -264,11 +265,22 @@ pub fn worker_main(sim: &dyn Simulation, a: WorkerArgs) -> ! {
   }
   let s = summary.lock().unwrap();
   let out = serde_json::to_string(&*s).unwrap();
-  let stdout = std::io::stdout();
-  let mut l = stdout.lock();
-  let _ = writeln!(l, "{out}");
-  let _ = l.flush();
+  emit_summary(&out_path, &out);
   unsafe { libc::_exit(0) };
+}
+
+fn emit_summary(path: &Option<String>, json: &str) {
+  match path {
+    Some(p) => {
+      let _ = std::fs::write(p, json);
+    }
+    None => {
+      let stdout = std::io::stdout();
+      let mut l = stdout.lock();
+      let _ = writeln!(l, "\n{json}");
+      let _ = l.flush();
+    }
+  }
 }
 
 pub fn panic_msg(p: &Box<dyn std::any::Any + Send>) -> String {
@@ -293,29 +305,46 @@ pub struct CheckArgs {
   pub no_evidence: bool,
 }
 
-fn spawn_worker(prop: &str, extra: &[String]) -> std::process::Child {
+struct Kid {
+  child: std::process::Child,
+  out: String,
+}
+
+static KID_SEQ: std::sync::atomic::AtomicU64 = std::sync::atomic::AtomicU64::new(0);
+
+fn spawn_worker(prop: &str, extra: &[String]) -> Kid {
   let exe = std::env::current_exe().expect("current_exe");
-  Command::new(exe)
+  let dir = if std::path::Path::new("/dev/shm").is_dir() { "/dev/shm".to_string() } else { std::env::temp_dir().to_string_lossy().to_string() };
+  let n = KID_SEQ.fetch_add(1, std::sync::atomic::Ordering::SeqCst);
+  let out = format!("{dir}/agsim-summary-{}-{n}.json", std::process::id());
+  let _ = std::fs::remove_file(&out);
+  let child = Command::new(exe)
     .arg("worker")
     .arg(prop)
     .args(extra)
+    .arg(format!("--out={out}"))
     .stdin(Stdio::null())
     .stdout(Stdio::piped())
     .stderr(Stdio::inherit())
     .spawn()
-    .expect("spawn worker")
+    .expect("spawn worker");
+  Kid { child, out }
 }
 
-fn collect(mut child: std::process::Child) -> (i32, Option<WorkerSummary>, String) {
+fn collect(mut kid: Kid) -> (i32, Option<WorkerSummary>, String) {
   let mut out = String::new();
-  if let Some(mut so) = child.stdout.take() {
-    let _ = so.read_to_string(&mut out);
+  if let Some(mut so) = kid.child.stdout.take() {
+    let mut bytes = vec![];
+    let _ = so.read_to_end(&mut bytes);
+    out = String::from_utf8_lossy(&bytes).into_owned();
   }
-  let status = child.wait().expect("wait");
+  let status = kid.child.wait().expect("wait");
   let code = status.code().unwrap_or(-1);
-  // the summary is the last non-empty line
-  let line = out.lines().rev().find(|l| l.trim_start().starts_with('{'));
-  let summary = line.and_then(|l| serde_json::from_str::<WorkerSummary>(l).ok());
+  let summary = std::fs::read_to_string(&kid.out).ok().and_then(|t| serde_json::from_str::<WorkerSummary>(&t).ok());
+  let _ = std::fs::remove_file(&kid.out);
+  // a worker removes its own scratch directory only on a clean exit; do it for it
+  let scratch = if std::path::Path::new("/dev/shm").is_dir() { std::path::PathBuf::from("/dev/shm") } else { std::env::temp_dir() };
+  let _ = std::fs::remove_dir_all(scratch.join(format!("agsim-{:010}", kid.child.id())));
   (code, summary, out)
 }
 
